@@ -28,7 +28,7 @@ RULE = ('BFS over operation histories (alphabet in coverage.alphabet) to the dep
         'reconstruction, constants by identity) is compared with the pristine vector. non-trivial = history >= 2 ops.')
 ASSUMPTIONS = ['pristine vector taken from the harness hard reset (itself validated against fresh subprocesses in the '
                'thorough tier)', 'interactive mode is not part of the configuration state (not observed after clear)']
-WITNESSES = ['cleared_bindings', 'cleared_operative', 'cleared_lock', 'cleared_singleton', 'cleared_imports',
+WITNESSES = ['second_life_same', 'cleared_bindings', 'cleared_operative', 'cleared_lock', 'cleared_singleton', 'cleared_imports',
              'constants_survive', 'constants_cleared', 'clear_after_failed_op', 'clear_with_interactive_constants']
 
 MEM = {'mem_a.gin': "c20.f.a = 11\ninclude 'mem_b.gin'\n", 'mem_b.gin': 'import json\nc20.f.b = 12\n'}
@@ -98,15 +98,19 @@ class Quiet(Exception):
   pass
 
 
+_ALT = [0]   # second life of a history: the same operations binding other values (same number of bindings)
+
+
 def do_op(op):
   """Applies one operation to real gin; failures of the operation itself are part of the history."""
+  k = _ALT[0]
   try:
     if op == 'parse_plain':
-      gin.parse_config('c20.f.a = 1')
+      gin.parse_config('c20.f.a = %d' % (1 + k))
     elif op == 'parse_scoped':
-      gin.parse_config('s/c20.f.a = 2')
+      gin.parse_config('s/c20.f.a = %d' % (2 + k))
     elif op == 'parse_macro':
-      gin.parse_config('m = 3\nc20.f.b = %m')
+      gin.parse_config('m = %d\nc20.f.b = %%m' % (3 + k))
     elif op == 'parse_import':
       gin.parse_config('import json\nimport os.path as osp')
     elif op == 'parse_include':
@@ -114,7 +118,7 @@ def do_op(op):
     elif op == 'parse_failing':
       gin.parse_config('c20.f.a = 5\nc20.f.nope = 1')
     elif op == 'bind_ok':
-      gin.bind_parameter('c20.f.b', 7)
+      gin.bind_parameter('c20.f.b', 7 + k)
     elif op == 'bind_rejected':
       gin.bind_parameter('c20.f.nope', 1)
     elif op == 'call_plain':
@@ -370,7 +374,36 @@ class World:
           res.w('cleared_imports')
         if out != 'ok':
           res.w('clear_after_failed_op')
-
+    # ---- two lives: history A, clear, then the same operations binding OTHER values (B) behave as B alone does
+    # (anything keyed on a counter, a size or an identity that the clear rewinds would show here)
+    if not any(o.startswith(('const_', 'interactive', 'enter_', 'exit_')) or o.endswith('_fails') for o in self.hist):
+      def life(alt):
+        _ALT[0] = alt
+        try:
+          outs = [do_op(o) for o in self.hist]
+        finally:
+          _ALT[0] = 0
+        calls = []
+        for sc in (None, 's', 's/t', 't/s'):
+          try:
+            with (gin.config_scope(sc) if sc else contextlib.nullcontext()):
+              calls.append((F(), gin.get_bindings(F)))
+          except Exception as e:  # pylint: disable=broad-except
+            calls.append('raised %s' % type(e).__name__)
+        return (outs, calls, gin.config_str())
+      harness.hard_reset()
+      COUNT.clear()
+      alone = life(100)
+      harness.hard_reset()
+      COUNT.clear()
+      life(0)
+      gin.clear_config()
+      after_clear = life(100)
+      if after_clear != alone:
+        res.violation('second_life_differs', 'history %r (values +100): run after [the same history, clear_config()] it gives '
+                      '%r, run alone it gives %r' % (hist, after_clear, alone), {'history': list(hist), 'clear_constants': False})
+      else:
+        res.w('second_life_same')
 
 FRESH_SCRIPT = r'''
 import json, sys
